@@ -262,6 +262,10 @@ def evaluate(ctx, batch, real_cmd, model_cmd, env, problems, reasons):
                 w = unhx(parse_r(rp[0]).get("w", "-")).decode("latin-1")
                 rr = parse_r(rp[1])
                 v = parts[2].split()
+                if parse_r(rp[0]).get("w") != parse_r(parts[0]).get("w"):
+                    # the implementation wrote something else than the model: ask the spec about *its* token
+                    _, vo, _ = run_lines(model_cmd, [f"rd {meta[1]} 0 1 {hx(w)} 2C"])
+                    v = vo[0].split(" | ")[1].split() if vo and " | " in vo[0] else ["V", "X", "-"]
                 if meta[3]:   # oracle applies (value is inside the property's claim)
                     if v[1] != "G":
                         why = f"writer produced {w!r}, which is not a token of the grammar for {meta[1]}"
@@ -298,7 +302,7 @@ def literal_batches(ctx, quick):
                 for opt in (0, 1):
                     b.rd(kind, opt, tok, c)
     out.append(b)
-    L1, L2 = (3, 4) if quick else (4, 6)
+    L1, L2 = (3, 4) if quick else (4, 7)
     for kind in KINDS:
         al = ALPHA[kind]
         b = Batch(f"exhaustive-{kind}-len<={L1}-all-contexts")
